@@ -228,6 +228,12 @@ impl HetTable {
         let hash_entry_size = self.header.hash_entry_size;
         let max_file_count = self.header.max_file_count;
 
+        // The hash width comes straight from the table header; widths below one byte cannot
+        // carry the 8-bit name hash and would underflow the mask computation
+        if hash_entry_size < 8 {
+            return (None, Vec::new());
+        }
+
         // Use the correct Jenkins hashlittle2 algorithm for HET tables
         let (hash, name_hash1) = het_hash(filename, hash_entry_size);
 
